@@ -244,7 +244,7 @@ func PubKey(i int) ecdsa.PublicKey { return key(i).PublicKey }
 
 // TempDir returns a fresh directory for a store.
 func TempDir() string {
-	d, err := os.MkdirTemp("", "zzverif")
+	d, err := os.MkdirTemp(os.Getenv("VERIF_TMP"), "zzverif") // VERIF_TMP: scratch directory of the replay (removed with it)
 	if err != nil {
 		panic(err)
 	}
